@@ -54,5 +54,5 @@ def run(prop):
     exps = expectations(prop)
     if not exps or os.environ.get("VERIF_SELFTEST_CHILD"):
         return []
-    with concurrent.futures.ThreadPoolExecutor(max_workers=8) as ex:
+    with concurrent.futures.ThreadPoolExecutor(max_workers=14) as ex:
         return list(ex.map(run_one, [(prop, p, e) for p, e in exps]))
